@@ -469,6 +469,16 @@ class Arr:
     def sum(self, axis=None):
         return np_sum(self, axis)
 
+    def all(self, axis=None):
+        if axis is not None:
+            raise AnalysisError('all(axis=...) has no model')
+        return Arr([], [], 'bool', None, {}, 'all', parents=(self,))          # (a data-dependent truth value: both outcomes are explored where it is tested)
+
+    def any(self, axis=None):
+        if axis is not None:
+            raise AnalysisError('any(axis=...) has no model')
+        return Arr([], [], 'bool', None, {}, 'any', parents=(self,))
+
     def argsort(self, *a, **k):
         if self.ndim != 1:
             raise AnalysisError('argsort of a non-vector has no model')
@@ -491,6 +501,8 @@ class Arr:
             shape, legs = broadcast(self, o)
             dt = join_dtype(self.dt, o.dt)
             tags = {}
+            if CTX.typed and name in ('add', 'sub') and dt == 'complex':
+                sum_typing(self, o)
         elif isinstance(o, (int, float, complex, Size)) or is_scalar(o):
             shape, legs, dt = self.shape, self.legs, join_dtype(self.dt, 'complex' if isinstance(o, complex) or (isinstance(o, Arr) and o.dt == 'complex') else 'real')
             tags = {}
@@ -641,6 +653,24 @@ def broadcast(a, b):
         else:
             raise value_error(f'operands could not be broadcast together with shapes {a.shape} {b.shape}')
     return shape, legs
+
+
+def sum_typing(a, b):
+    """terms of a sum carry the same indices: an axis that is a ket index of one term and a bra index of the other (M + M.T for a complex matrix between tensor-train
+    indices: the transpose without the conjugate) makes the sum depend on the basis -- for complex data it is not the Hermitian part, nor any tensor at all"""
+    n = max(a.ndim, b.ndim)
+    la, lb = [()] * (n - a.ndim) + list(a.legs), [()] * (n - b.ndim) + list(b.legs)
+    for ax, (ga, gb) in enumerate(zip(la, lb)):
+        if not ga or not gb or len(ga) != len(gb):
+            continue
+        ra, rb = [x.resolve() for x in ga], [y.resolve() for y in gb]
+        if not all(x.kind in ('R', 'M') for x in ra + rb):
+            continue
+        for x, y in zip(ra, rb):
+            if x.kind == y.kind and x.key == y.key and (x.var, x.conj) != (y.var, y.conj):
+                CTX.event('sum-type-error', a=a, b=b, axis=ax, detail=f'axis {ax} is the index {x} in one term of the sum and its conjugate counterpart {y} in the other '
+                          f'(a transpose without the complex conjugate, or the reverse)')
+                return
 
 
 def merge_parts(grp):
